@@ -260,10 +260,10 @@ PROPERTIES = {
     },
     "C13": {
         "explanation": "C13 (sequential part): utils::remove_all is executed for every name of up to L bytes against an arbitrary kernel. "
-                       "Decided: which names are refused before any syscall ('.', '..', '', anything with '/'), the exact call sequence "
-                       "unlinkat -> rmdir -> O_DIRECTORY|O_NOFOLLOW open -> listing -> unlinkat/rmdir, ENOENT tolerance at each step, and that the "
-                       "sub-directory descriptor is closed. Root::remove_all's (parent, name) split is O14.0 + the remove_all top harness of C03.",
-        "outside": "recursion below the first directory listing (rustix Dir cannot be modelled: listing always fails); concurrent remove_all; names longer than L",
+                       "Decided: which names are refused before any syscall ('.', '..', '', anything with '/'), the fast path unlinkat -> rmdir with its error selection, "
+                       "ignore_enoent for every errno, the slow path up to the directory-scan open (O_DIRECTORY|O_NOFOLLOW on (dir,name), failure reported, ENOENT tolerated), "
+                       "and that Root::remove_all hands exactly (resolved parent, final name) to it.",
+        "outside": "everything behind a SUCCESSFUL scan open (listing, recursion, final retry: attempted tier, > 30 GB); that unlinkat on a symlink does not follow it (kernel); concurrent remove_all; names longer than L",
         "assumptions": ["Dir::read_from always fails with an arbitrary errno", "kernel K"],
         "obligations": C13_OBS + O_RA_TOP,
     },
@@ -278,8 +278,8 @@ PROPERTIES = {
     },
     "C08": {
         "bounds": {"quick": {"MAX_CALLS": 16, "MAX_FDS": 8}, "thorough": {"MAX_CALLS": 16, "MAX_FDS": 8}},
-        "explanation": "C08: ProcfsHandle::open on a masked handle with an arbitrary resolver/kernel; the stub for new_unmasked counts handles created during one lookup and may return a handle that is itself masked.",
-        "outside": "real hidepid/subset mounts (K covers them as 'probe fails'); wall time",
+        "explanation": "C08: the ENOENT-retry logic of ProcfsHandle::open on masked handles, with open_base / verify_same_procfs_mnt / the resolver replaced by contract stubs (each executed for real in C06's harnesses); the stub for new_unmasked counts handles created during one lookup and may return a handle that is itself masked.",
+        "outside": "real hidepid/subset mounts and which constructor yields an unmasked procfs (kernel mount semantics); the fully real two-level retry (attempted tier, > 30 GB); wall time",
         "assumptions": ["new_unmasked replaced by a counting stub returning an arbitrary (possibly masked) handle"],
         "obligations": O_RETRY + [O_OPEN_RETRY_OK, O_OPEN_RETRY_MASKED, O_OPEN_LOOKUPFAIL, O_OPEN_MASKED, O_OPEN_UNMASKED],
     },
